@@ -84,8 +84,8 @@ Proof.
     - rewrite Hp, Hf, (absent_frozen s h I Hh Hs). reflexivity. }
   assert (Hex : get_ext s (b_id (main h)) = b_ext (main h)).
   { unfold get_ext. destruct (pi_rows s I h Hh) as [(_ & _ & _ & He)|(Hs & _ & _ & _ & He)].
-    - rewrite He, Hf. destruct (b_ext (main h)); [reflexivity|]. cbn [orelse].
-      destruct (Nat.ltb h (pnumber s)); reflexivity.
+    - rewrite He, Hf. destruct (b_ext (main h)) eqn:Ee; [reflexivity|]. cbn [orelse].
+      destruct (Nat.ltb h (pnumber s)); [exact Ee|reflexivity].
     - rewrite He, Hf, (absent_frozen s h I Hh Hs). reflexivity. }
   repeat match goal with |- _ /\ _ => split end.
   - unfold get_header. rewrite Hhd. reflexivity.
@@ -229,7 +229,7 @@ Proof.
     destruct (p_ok s) eqn:Eok; [|exact I].
     apply wipe_main_fold; [exact I|].
     intros n id Hin. destruct (pi_ret s I n id Hin) as [H1 H2].
-    pose proof (pi_ok s I Eok n id Hin). pose proof (pi_len s I). repeat split; try lia. exact H2.
+    pose proof (pi_ok s I Eok n id Hin). pose proof (pi_len s I). repeat split; try lia; try exact H2.
   - (* wipe, second batch *)
     destruct (p_ok s) eqn:Eok; [|exact I].
     apply wipe_side_fold; [exact I|].
@@ -301,7 +301,7 @@ Proof.
   induction l as [|[n i] l IH]; intros s id H; cbn [fold_left] in H; [left; exact H|].
   apply IH in H as [H|H]; [|right; right; exact H].
   cbn [fst snd delete_block_body p_uncles] in H. unfold del in H.
-  destruct (N.eqb_spec id i) as [->|]; [right; left; reflexivity|left; exact H].
+  destruct (N.eqb_spec id i) as [E|E]; [subst i; right; left; reflexivity|left; exact H].
 Qed.
 
 Lemma fold_side_uncles s0 l : forall s id,
@@ -312,7 +312,7 @@ Proof.
   apply IH in H as [H|H]; [|right; exact H].
   destruct (side_ok s0 (n, i)) eqn:E; [|left; exact H].
   cbn [fst snd delete_block delete_block_body p_uncles] in H. unfold del in H.
-  destruct (N.eqb_spec id i) as [->|]; [right; exists n; exact E|left; exact H].
+  destruct (N.eqb_spec id i) as [E'|E']; [subst i; right; exists n; exact E|left; exact H].
 Qed.
 
 (* Every stored block has an uncles row; whenever a step removes one, the block
@@ -356,7 +356,7 @@ End Parts.
 Definition ex_main (h : nat) : blk :=
   mkBlk (N.of_nat (100 + h)) (N.of_nat (200 + h)) [N.of_nat (300 + h); N.of_nat (400 + h)] (N.of_nat (500 + h)) (N.of_nat (600 + h))
         (if Nat.even h then Some (N.of_nat (700 + h)) else None).
-Definition ex_side : blk := mkBlk 999 888 [777] 666 555 None.      (* a sibling of the block at height 2 *)
+Definition ex_side : blk := mkBlk 999 888 [777%N] 666 555 None.      (* a sibling of the block at height 2 *)
 Definition ex_s0 : pstore :=
   let stored id := if N.eqb id 999 then Some (2, ex_side)
                    else if N.leb 101 id && N.leb id 105 then Some (N.to_nat id - 100, ex_main (N.to_nat id - 100)) else None in
